@@ -16,8 +16,19 @@ is the correspondence: an exception of the real parser is an observable that the
 Blank and comment lines (`Kind.ws`) are transparent for the discipline, as in the repository's own
 `IndentationCheckAnalyzer`, which ignores their flag.
 
-`fx = true` is the parser with fixes/C17-empty-body-blank-lines.diff; the structure law is false for the
-parser as it was (`asis_*` below).
+`fx = true` is the indentation pass with the (committed) repair fixes/C17-empty-body-blank-lines.diff; the
+structure law is false for the pass as it was (`asis_*` below).
+
+Two layers.  The theorems on `List LineInfo` read the indentation the parser gave the node
+(`position.character`).  The section "Judged from the TEXT" restates both halves with the indentation of the
+text line (leading white space, whether or not the rest parses): true on every text whose lines are blank,
+comments or match the instruction pattern (`C17_partial`), false in general for the code as it is
+(`C17_full`, `C17_counterexample`: `    ?` inside a block is put at column 0 and leaves the block), true for
+every text with fixes/C17-error-line-keeps-indentation.diff (`text_law_repaired`).
+
+"Any other indentation is flagged" is proved as: at least one instruction — the first offending one — is
+flagged; nothing is claimed about later, independent offenders.  "Four spaces" = four white-space characters
+(`\s`), as the parser counts them.
 -/
 namespace OPM.C17
 open OPM.ParseIndent OPM.ParseText OPM.ParseLine
